@@ -22,10 +22,6 @@ headers and its other compression methods (validated by differential runs, check
 namespace MsPack.Lzss
 open MsPack MsPack.Generated
 
-/-- the ring on entry: 4096 spaces, write position 16 (QBasic: 18) below the end, nothing written -/
-def initRing (mode : Nat) : Ring :=
-  ⟨Array.replicate 4096 0x20, 4096 - (if mode = lzssMODE_QBASIC then 18 else 16), #[]⟩
-
 theorem initRing_ok (mode : Nat) : (initRing mode).ok := by
   refine ⟨by simp [initRing], ?_⟩
   simp only [initRing]; split <;> decide
